@@ -18,14 +18,14 @@ TEXT = {
  "C07": ("the facade's own monitors (panic hook, counting allocator with hard cap, thread CPU clock, CPU-time hang monitor naming a case that never returns) over hostile inputs to every public operation: every truncation of vendored files, structured mutations, hostile counts, TZ-string edits and numbers at the width limits of the machine integers, constructors at i32/i64 extremes, all queries on whatever parses, and a read-back of whatever was accepted (designation getters, Debug text of types, rule, zone and search results: a value that should have been refused fails there); designation octets of any value; release and overflow-checked builds", "a clean run is not memory safety; tz-rs forbids unsafe code, so panics/overflow/allocation are the reachable failure modes"),
  "C15": ("N-thread vs alone result digests on shared zones (2/4/8/16 threads, barriers, random yields, the thread's errno overwritten before every call), including the default settings on the real file system (TimeZone::local / from_posix_tz) and the clock readers; the injected reader monitors the paths it is handed; hostile readers (a reader that resolves a TZ value itself, readers waiting for each other, somebody else's reader panicking) with a deadlock detector on thread states; LD_PRELOAD interposer on getenv/setenv/putenv/tzset/localtime* and strace window (only the opens the TZ resolution rules name); digest invariance under TZ/TZDIR/LANG/cwd; writable/TLS sections of the compiled rlib; auto-trait assertions incl. Freeze; Miri (and ThreadSanitizer in the thorough tier) on the thread workload", "the 'all future edits' quantifier is decided per tree; the artefact-section and auto-trait observations are build-time observations labelled as such"),
  "C19": ("the crate is built with no features / alloc / std and a deterministic no-alloc workload, an alloc-level one (incl. TZ value resolution through 12 directory-list shapes with a path-sensitive reader, error messages, reader errors of several std::io kinds, call histories with three readers serving different contents under the same paths), every value and error under 12 format specifications, and a replay of 3000 zones + queries written by the harness' own generators (tie rules, IANA rules, leap tables, every table shape) are run against each build; digests must be identical", "differential; each build's results are pinned to oracles by the other checks on the std build"),
- "C08": ("differential decoding: an independent RFC 8536 writer and decoder (Must / MustFail / Unspec) against from_tz_data on generated v1/v2/v3 files, all 894 distinct vendored tzdata files and every single-field corruption of the named kinds; designation tables longer than 256 octets, 256 local time types", "trusts M-tzif (writer and decoder are checked against each other on every generated file; disagreement = inconclusive)"),
+ "C08": ("differential decoding: an independent RFC 8536 writer and decoder (Must / MustFail / Unspec) against from_tz_data on generated v1/v2/v3 files, all 894 distinct vendored tzdata files and every single-field corruption of the named kinds; designation tables longer than 256 octets, 256 local time types; footers with a newline inside or more lines after them", "trusts M-tzif (writer and decoder are checked against each other on every generated file; disagreement = inconclusive)"),
  "C09": ("recursive-descent recogniser + denotation written from the grammar against three entry points (settings, v2 footer, v3 footer): grammar cross product, every single-character edit of sentences, every number replaced by congruent / oversized values, sentences wrapped in non-ASCII white space, thorough: all strings of length <= 6 over a 14-letter alphabet", "trusts M-posix; in-range numbers written with more than 3 digits, ASCII whitespace and non-ASCII letters next to an unquoted name are left unspecified"),
  "C20": ("tzset(3) resolution model over a virtual file system with a recording reader: exact sequence of paths requested and result class, exhaustively over 56 value shapes x 9 directory lists x all assignments of five file states (absent, valid, garbage, empty, structurally well-formed but not a valid zone); parse_local shorthand", "trusts M-resolve; the real file system is not involved in this check"),
  "C10": ("record-and-replay differential: tz-rs' answers for every transition -1/0/+1, random and far-future instants and local times around every transition of every table (19th century included) are logged and replayed offline against CPython zoneinfo and glibc reading the same vendored files (all 1243 paths in both tiers, the thorough tier with ten times the random instants and twenty times the rule-governed years; the footer rule's future transitions located by bisection), plus TZ descriptions against glibc's parser", "trusts zoneinfo and glibc 2.36 as oracles, with the exclusions listed in the evidence assumptions"),
  "C11": ("brute-force 400-year definition against the constructor on all 1 324 801 day-notation pairs x breakpoints of d (thorough: all 105 breakpoints, each realised twice and at the extreme translations of the two UTC-scale day times, so that 'acceptance depends on d only' is observed), error variant = first violated condition", "trusts M-rule day tables (closed form validated against walking the month over the cycle)"),
  "C12": ("probe zones pin the hidden UTC<->leap-count conversions: forward switch instant, instant reported by the search, their agreement, monotonicity; tables of both signs incl. the real 27-record one; probe zones with both offsets away from UTC, transitions closer to a record than the offsets, searches at the edges of the gap judged by the C05/C06 search oracle; probe zones with the last record and the transition within a few seconds of i64::MAX (records that are never reached)", "trusts M-leap (f defined as max{L: g(L)<=u}, brute-force validated)"),
- "C13": ("clause-by-clause validator against both constructors on valid zones, every single-defect perturbation at first/middle/last position, extremes, rule switches placed on the last transition at a leap record, near-equal designations, one to three arbitrary edits of valid zones, and random malformed tuples", "trusts the A.3 validator; error variants compared on single-defect inputs only"),
- "C14": ("field invariant applied by the facade to every DateTime produced by any workload of any check, every valid search result compared with DateTime::new of the same fields and type, plus a dedicated workload over all constructors, projection and the comparison claims (incl. second-60 values against every other spelling of the same instant)", "trusts M-cal"),
+ "C13": ("clause-by-clause validator against both constructors on valid zones, every single-defect perturbation at first/middle/last position, extremes, rule switches placed on the last transition at a leap record, near-equal designations, one to three arbitrary edits of valid zones, random malformed tuples, and designations of 2^8 .. 2^17 octets", "trusts the A.3 validator; error variants compared on single-defect inputs only"),
+ "C14": ("field and total-nanoseconds invariant applied by the facade to every DateTime produced by any workload of any check, instants whose nanosecond count sits on a power of two, every valid search result compared with DateTime::new of the same fields and type, plus a dedicated workload over all constructors, projection and the comparison claims (incl. second-60 values against every other spelling of the same instant)", "trusts M-cal"),
  "C16": ("explicit-sign floor division in i128 against all three total-nanosecond constructors, total_nanoseconds(), range edges, every power of two as a count, i128 extremes, the zone-taking constructor near every switch of generated zones, counts whose seconds are k*2^64 away from an in-range value, ns validation of the constructors and of the search on five zone shapes and nine dates (Feb 29, second 60, month ends)", "trusts M-cal and the 10-line splitter"),
  "C17": ("find_n against the allocating search for every buffer length 0..k+2 with stale pre-filled buffers, error cases included (refused arguments, and errors that arise while an entry is built: gaps within an offset of either range end)", "the allocating search is the oracle (its own correctness is C05/C06)"),
  "C18": ("independent regular-grammar reader of the rendering; fields, nanoseconds and offset read back and compared with the getters; offsets over the full i32 range, each carried by four local time types (flag / designation varied); a Display error is a violation of its own; second 60 at the top of the range", "trusts M-text"),
